@@ -51,13 +51,15 @@ MESSAGES = {
     "unknown": "<foo>unknown</foo> tag", "inline": "<fg=red>red</> text",
     "longword": "no such file: /" + "very-long-path-component/" * 12 + "file.txt and " + "Z" * 300,
     "continued": "pip install \\\n    --no-deps demo", "backslashes": "path C:\\temp\\new and \\\\server", "ends-backslash": "directory C:\\temp\\",
+    "ends-2-backslashes": "share not found: \\\\", "ends-3-backslashes": "three \\\\\\", "ends-4-backslashes": "unc prefix \\\\\\\\",
+    "only-backslashes": "\\\\",
 }
 LINES_SINGLE = [
     "x = 1", "# a comment with <b>markup</b> in it", "s = 'text <info>x</info> y'", "t = \"</info> unbalanced close\"", "u = 'é語 ünï'",
     "v = [1, 2,   3]  # odd   spacing", "w = {'a': 1, 'b': (2, 3)}", "if x: y = 2", "z = x if x else 3", "def g(a, b=2): return a",
     "long_name = " + " + ".join("%d" % i for i in range(60)), "lam = lambda q: q  # <fg=red>", "n = 0x1F + 1e3 - 2j", "b = b'bytes'",
     "f = f'{x!r:>{10}}'", "x = 1\t# tab before comment", "r = r'\\d+<b>'", "pass", "", "g2 = '<b></info>'", "k = x<y>z if False else 0",
-    "class C(object): pass", "q = '''one line triple'''", "y = 2", "e = '</>'", "caf = '\u00fcber se\u00f1or \u00df'  # caf\u00e9",
+    "class C(object): pass", "c1 = 1  # path C:\\", "# only a comment ending in two \\\\", "c2 = 's'  # <b> and a backslash \\", "q = '''one line triple'''", "y = 2", "e = '</>'", "caf = '\u00fcber se\u00f1or \u00df'  # caf\u00e9",
 ]
 BLOCKS_MULTI = [
     ["doc = '''first", "second <b>line</b>", "third'''"],
@@ -250,7 +252,7 @@ def raise_from(env, mod_case, message, depth, mode, rng):
     return None, path, available
 
 
-SOURCELESS_NAMES = ["<generated-no-file>", "<string>", "</error>", "<b>", "a</info>b", "</>", "<fg=red>x", "no-such-file.py", "<info>", "ends\\"]
+SOURCELESS_NAMES = ["<generated-no-file>", "<string>", "</error>", "<b>", "a</info>b", "</>", "<fg=red>x", "no-such-file.py", "<info>", "ends\\", "ends-two\\\\", "ends-four\\\\\\\\"]
 
 
 NOT_PYTHON = "<html>\n{{ it's broken \'\'\' }}\n<b>(\n</html>\n"
@@ -347,10 +349,28 @@ def render(env, exc, verbosity, ansi, utf8, simple, ignore=None, solutions=False
     return io.fetch_output() + io.fetch_error()
 
 
-def classify(clause, source, shown_line_src=None):
-    if clause == "snippet-verbatim" and shown_line_src is not None and shown_line_src.rstrip().endswith("\\"):
-        return "continuation-backslash-not-shown"
-    return None
+def ends_in_comment(line):
+    """Whether the last visible character of a source line belongs to a comment token."""
+    try:
+        for tok in tokenize.generate_tokens(_io.StringIO(line + "\n").readline):
+            if tok.type == tokenize.COMMENT and tok.end[1] >= len(line.rstrip()):
+                return True
+    except (tokenize.TokenError, IndentationError, SyntaxError):
+        pass
+    return False
+
+
+def classify(clause, source, shown_line_src=None, shown=None):
+    """The known finding is the mechanism, not 'any line ending in a backslash': a continuation backslash (one that
+    belongs to no token, so not the end of a comment) that is missing from a line otherwise shown as it is."""
+    if clause != "snippet-verbatim" or shown_line_src is None:
+        return None
+    want = shown_line_src.rstrip()
+    if not want.endswith("\\") or ends_in_comment(want):
+        return None
+    if shown is not None and shown.rstrip() != want[:-1].rstrip():
+        return None
+    return "continuation-backslash-not-shown"
 
 
 def judge_render(sh, env, exc, case, source, fail_line, path, available):
@@ -460,7 +480,7 @@ def judge_render(sh, env, exc, case, source, fail_line, path, available):
                 if stl is not None and num in stl:
                     want = src_lines[num - 1]
                     if shown.rstrip() != want.rstrip():
-                        sh.violate("snippet-verbatim", rec, "line %d shown as %r, source line is %r" % (num, shown, want), classify("snippet-verbatim", source, want))
+                        sh.violate("snippet-verbatim", rec, "line %d shown as %r, source line is %r" % (num, shown, want), classify("snippet-verbatim", source, want, shown))
                         break
 
 
@@ -595,7 +615,10 @@ def judge_highlight(sh, env, source, label):
     try:
         lines = env.Highlighter().highlighted_lines(source)
         plain = env.PlainFormatter()
-        shown = [plain.format(l) for l in lines]
+        # formatted behind a one-character prefix, as the report does (line number and delimiter come first): the
+        # third-party formatter looks at message[-1] for a tag at offset 0, so a bare line that starts with a tag and
+        # ends in a backslash would be misread by the harness, not by the report
+        shown = [plain.format("|" + l)[1:] for l in lines]
     except Exception as e:
         sh.violate("highlighter-raises", rec, "highlighter raised %r on %s" % (e, label))
         return
@@ -611,7 +634,7 @@ def judge_highlight(sh, env, source, label):
             continue
         sh.count("corpus_lines_compared")
         if shown[i].rstrip() != want.rstrip():
-            key = classify("snippet-verbatim", source, want)
+            key = classify("snippet-verbatim", source, want, shown[i])
             sh.violate("highlight-verbatim", dict(rec, line=i + 1), "%s line %d shown as %r, source %r" % (label, i + 1, shown[i][:120], want[:120]), key)
             bad += 1
             if bad > 5:
